@@ -61,6 +61,9 @@ func famPCastle(level int) family {
 func famPEP(kinds []int8, second bool, name string) family {
 	return family{name, 64, func(s, n int, e space.Emit) { space.PEP(s, n, kinds, second, e) }}
 }
+func famPEPOwn(kinds []int8, name string) family {
+	return family{name, 64, func(s, n int, e space.Emit) { space.PEPOwn(s, n, kinds, e) }}
+}
 func famPPromo() family {
 	return family{"PPROMO", 64, func(s, n int, e space.Emit) { space.PPromo(s, n, e) }}
 }
